@@ -1,6 +1,23 @@
 META = {
-    "assumptions": ["allocation failure out of scope (--no-malloc-may-fail)"],
-    "outside": [],
+    "assumptions": ["allocation failure out of scope (--no-malloc-may-fail)",
+                    "the kernel refuses write/pwrite/fallocate/ftruncate/BLKDISCARD on a descriptor opened O_RDONLY (POSIX; not modelled)",
+                    "handles are built by the harness: 1 group, 1 KiB blocks, 16 inodes; EXT2_FLAG_RW is the only flag bit forced (to 0)"],
+    "outside": [
+        "the tools' main() functions: option -> flag mapping (e2fsck -n -> E2F_OPT_READONLY -> no EXT2_FLAG_RW; debugfs without -w; "
+        "dumpe2fs; tune2fs -l; resize2fs -P; e2image; e2freefrag; e2undo -n; mke2fs -n), e2fsck's skip-journal-recovery and "
+        "release_orphan_inodes decisions -- this is where the property mostly lives; C13 here is a library-level slice",
+        "ext2fs_close2()/ext2fs_flush2() on a read-only handle WITH EXT2_FLAG_DIRTY set: closefs.c does not test EXT2_FLAG_RW, the "
+        "superblock/descriptor writes are handed to the io manager and only fail at the O_RDONLY descriptor (EBADF)",
+        "unix_io operations on a channel opened without IO_FLAG_RW (write_blk64/write_byte/zeroout/discard/flush from an arbitrary "
+        "cache state end in EBADF and leave the device unchanged): relies on the kernel, not encoded; cache semantics are C17",
+        "ext2fs_open2 after the channel is open (arbitrary superblock; backup-superblock descriptor fix-ups): encoded, not solvable in 10 GB",
+        "ext2fs_write_inode2 with bufsize < inode size (the read-modify-write prefix through ext2fs_read_inode2): query > 10 GB",
+        "other writers that rely on the caller or on the descriptor instead of testing EXT2_FLAG_RW (ext2fs_flush2, io_channel_write_blk64 "
+        "users such as ext2fs_zero_blocks2, ext2fs_write_dir_block4, ext2fs_update_bb_inode); extent.c/link.c/unlink.c/expanddir.c/"
+        "fileio.c RW tests are not encoded",
+        "undo_io / test_io / inode_io / sparse_io managers; unixfd_open (derives IO_FLAG_RW from fcntl(F_GETFD) & O_RDWR)",
+        "e2fsck journal.c beyond e2fsck_journal_release (e2fsck_journal_reset_super / fix_corrupt_super are gated by fix_problem answers)",
+    ],
 }
 
 MAINL = ["main.%d:257" % i for i in range(10)]   # harness copy loops (<= 256 bytes)
@@ -43,12 +60,11 @@ HARNESSES = [
     dict(name="open_ro", src="open_ro.c",
          extra_src=["lib/ext2fs/blknum.c", "lib/ext2fs/io_manager.c"],
          funcs=["ext2fs_open2"],
-         configs=[{"PREFIX": None}, {"_tier": "thorough"}],
+         configs=[{"PREFIX": None}],
          unwind=5, unwindset=MAINL + ["strlen.0:3", "strcpy.0:3", "strchr.0:3"],
          backends=["default", "kissat"],
-         bound="1 KiB blocks, 64 blocks per group, <= 3 groups, descriptor size 32/64; every other superblock byte, the "
-               "descriptor block, open flags (minus RW/dirty bits/IMAGE_FILE), superblock/block_size arguments, checksum "
-               "verdicts, manager open() and mmp_start results: all symbolic"),
+         bound="open flags: every word without RW / dirty state bits / IMAGE_FILE; superblock and block_size arguments symbolic; "
+               "the manager's open() fails, so only the flag mapping and the error exit of ext2fs_open2 are executed"),
     dict(name="unix_open_mode", src="unix_open_mode.c",
          funcs=["unix_open", "unix_open_channel", "ext2fs_open_file", "alloc_cache"],
          unwind=4, unwindset=MAINL + ["alloc_cache.0:9", "free_cache.0:9", "strlen.0:3", "strcpy.0:3"],
@@ -65,6 +81,11 @@ HARNESSES = [
                "bytes of the journal superblock, tail sequence, separate/shared journal channel: all symbolic"),
 ]
 MANIFEST = {
-    "text": "TBD",
-    "note": "TBD",
+    "text": "Library-level slice, bounded-exhaustive over the flag word: for every value of fs->flags without EXT2_FLAG_RW the "
+            "encoded entry points (inode write, bitmap write, MMP start/stop/update/clear, close of a clean handle) reach no "
+            "modifying io-manager call and leave the in-core dirty state alone; ext2fs_open2 never passes IO_FLAG_RW without "
+            "EXT2_FLAG_RW; unix_io opens O_RDWR exactly with IO_FLAG_RW (all 2^32 io flag words); e2fsck_journal_release does "
+            "not write the journal superblock under E2F_OPT_READONLY. The tools' own option handling is outside.",
+    "note": "Trusted: CBMC's C semantics, the counting io-manager stub, POSIX refusal of writes on O_RDONLY descriptors. "
+            "ext2fs_close2 does not itself test EXT2_FLAG_RW before flushing a DIRTY handle (see outside).",
 }
